@@ -12,11 +12,16 @@ Line == TraceLog[l]
 
 OVer(v) == CASE v = "T11" -> "TLSv1.1" [] v = "T12" -> "TLSv1.2" [] v = "T13" -> "TLSv1.3" [] OTHER -> "?"
 
+\* suite2 / oname2: on the second connection both sides are restricted to another suite (of another hash, so that the
+\* ticket of the first connection cannot be used: a full handshake is the right outcome, a failure is not)
+SuiteOf(t, i) == IF i = 2 /\ t.suite2 # 0 THEN t.suite2 ELSE t.suite
+ONameOf(t, i) == IF i = 2 /\ t.suite2 # 0 THEN t.oname2 ELSE t.oname
+
 ConnOK(t, i) ==
     /\ t.done[i] = 1 /\ t.odone[i] = 1                       \* both sides completed
     /\ t.mxerr[i] = 0 /\ t.oerr[i] = 0
     /\ t.mver[i] = t.ver /\ t.over[i] = OVer(t.ver)          \* with the version ...
-    /\ t.mxsuite[i] = t.suite /\ t.ocipher[i] = t.oname      \* ... and suite both were restricted to
+    /\ t.mxsuite[i] = SuiteOf(t, i) /\ t.ocipher[i] = ONameOf(t, i)      \* ... and suite both were restricted to
     /\ t.dataok[i] = 1 /\ t.odataok[i] = 1                   \* every payload intact, both directions
     /\ t.mres[i] = t.ores[i]                                 \* same view of "resumed"
 
@@ -24,7 +29,9 @@ Interop(t) ==
     /\ ConnOK(t, 1)
     /\ t.nconn = 2 => /\ ConnOK(t, 2)
                       /\ t.mres[1] = 0
-                      /\ t.mres[2] = 1                        \* the offered session / ticket / PSK is taken up
+                      /\ t.suite2 = 0 => t.mres[2] = 1        \* the offered session / ticket / PSK is taken up
+                      \* 0-RTT: what the independent client wrote as early data is what the server application got, first and intact
+                      /\ t.early > 0 => (t.oearly = 1 /\ t.earlyok = 1)
 
 TRun == /\ l <= Len(TraceLog) /\ "infra" \notin DOMAIN Line /\ Interop(Line) /\ l' = l + 1
 TReject == /\ l <= Len(TraceLog) /\ ~ENABLED TRun
